@@ -183,7 +183,12 @@ InitHist(g, back0) == [k \in KeysOf(g) |-> <<[v |-> back0[k], s |-> 0, e |-> 0, 
 Allowed(hk, issue) ==
     LET W == 1..Len(hk)
         before == { j \in W : hk[j].kind = "put" /\ hk[j].done /\ hk[j].e < issue }
-        Superseded(i) == \E j \in before : hk[i].done /\ hk[i].e < hk[j].s
+        \* write i is older than the completed put j: it completed before j was invoked, or (puts only) it was
+        \* invoked earlier AND completed earlier than j - two overlapping puts are ordered when both ends agree;
+        \* a delete overlapping a put may take effect on either side of it
+        Superseded(i) == \E j \in before : /\ hk[i].done
+                                            /\ \/ hk[i].e < hk[j].s
+                                               \/ (hk[i].kind # "del" /\ hk[i].s < hk[j].s /\ hk[i].e < hk[j].e)
     IN { hk[i].v : i \in { i \in W : ~Superseded(i) } }
 
 ReadOK(h, k, issue, ret) == ret \in Allowed(h[k], issue)
